@@ -35,6 +35,8 @@ func checkC20(p *Program, r *Report) {
 	c20SiblingProductions(p, r)
 	ka := buildKindAnalysis(m)
 	va := buildEvalAnalysis(m)
+	r.Explain("R5 (= C07.R8) in the operator handlers the first operand is taken out of its interface before the second operand is evaluated: a value read from a list slot would otherwise stay an alias of that slot while the second operand runs, and behave differently from the same value held in a variable.")
+	leftValueFixedBeforeRight(p, r, m, va, "C20.R5")
 	r.Note("discriminating_helper_parameters", ka.describe())
 	var fields []string
 	for k, w := range ka.fieldW {
